@@ -308,7 +308,6 @@ CALLS = {
     "auth_publickey": dict(fn=c_auth_publickey, need="kex", stall=(MSG_USERAUTH_REQUEST,), api="Transport.auth_publickey", roles=("client",), auth=True),
     "auth_interactive": dict(fn=c_auth_interactive, need="kex", stall=(MSG_USERAUTH_REQUEST,), api="Transport.auth_interactive", roles=("client",), auth=True),
     "auth_password_svc": dict(fn=c_auth_password, need="kex", stall=(MSG_SERVICE_REQUEST,), api="Transport.auth_password", roles=("client",), auth=True),
-    "srt_auth_none": dict(fn=c_auth_none, need="kex", stall=(MSG_USERAUTH_REQUEST,), api="ServiceRequestingTransport.auth_none", roles=("client",), srt=True, auth=True),
     "srt_auth_password": dict(fn=c_auth_password, need="kex", stall=(MSG_USERAUTH_REQUEST,), api="ServiceRequestingTransport.auth_password", roles=("client",), srt=True, auth=True, tmo=True),
     "srt_auth_publickey": dict(fn=c_auth_publickey, need="kex", stall=(MSG_USERAUTH_REQUEST,), api="ServiceRequestingTransport.auth_publickey", roles=("client",), srt=True, auth=True),
     "srt_auth_interactive": dict(fn=c_auth_interactive, need="kex", stall=(MSG_USERAUTH_REQUEST,), api="ServiceRequestingTransport.auth_interactive", roles=("client",), srt=True, auth=True),
@@ -386,7 +385,7 @@ class World:
             else:
                 csock = socket.create_connection(("127.0.0.1", port))
                 csock.setsockopt(socket.IPPROTO_TCP, socket.TCP_NODELAY, 1)
-            lst.settimeout(30)
+            lst.settimeout(120)
             conn, _ = lst.accept()
             lst.close()
             conn.setsockopt(socket.IPPROTO_TCP, socket.TCP_NODELAY, 1)
@@ -612,8 +611,9 @@ class Tracer:
     one it parks the caller until the injector has done its work (a single
     preemption of the caller at statement granularity)."""
 
-    def __init__(self, k=None, on_hit=None):
+    def __init__(self, k=None, on_hit=None, at=None):
         self.k = k
+        self.at = tuple(at) if at else None  # (qualname, substring of the source line)
         self.on_hit = on_hit
         self.n = 0
         self.hit = False
@@ -629,13 +629,24 @@ class Tracer:
         if event == "line":
             if len(self.times) < 5000:
                 self.times.append(time.monotonic())
-            if self.k is not None and self.n == self.k and not self.hit:
+            if not self.hit and (
+                (self.k is not None and self.n == self.k) or (self.at is not None and self._at(frame))
+            ):
                 self.hit = True
+                self.k = self.n
                 co = frame.f_code
                 self.where = "%s:%d" % (getattr(co, "co_qualname", co.co_name), frame.f_lineno)
                 self.on_hit()
             self.n += 1
         return self.loc
+
+    def _at(self, frame):
+        co = frame.f_code
+        if getattr(co, "co_qualname", co.co_name) != self.at[0]:
+            return False
+        import linecache
+
+        return self.at[1] in linecache.getline(co.co_filename, frame.f_lineno)
 
     def lines_before_first_wait(self):
         t = self.times
@@ -697,7 +708,7 @@ def wait_parked(w, callers, timeout=40.0):
         now = time.monotonic()
         if key != last or not all(k for k in key[0]):
             last, since = key, now
-        elif now - since >= 0.4 and w.drained():
+        elif now - since >= 0.3 and w.drained():
             return "blocked"
         time.sleep(0.05)
     return "unsettled"
@@ -776,8 +787,8 @@ def dry_count(a, rng):
         tr = Tracer()
         c = Caller(w, 0, tr)
         c.start()
-        wait_parked(w, [c], 30.0)
-        return tr.lines_before_first_wait()
+        wait_parked(w, [c], 60.0)
+        return tr.n
     finally:
         w.teardown()
 
@@ -806,7 +817,7 @@ def run_case(a):
     res = dict(args=a, status="run", api=api_name(a["call"], a.get("tmo")))
     tmo = a.get("tmo") or 0.0
     k = a.get("k")
-    if timing == "during" and k is None:
+    if timing == "during" and k is None and not a.get("at"):
         try:
             n = dry_count(a, rng)
         except Exception:
@@ -815,10 +826,14 @@ def run_case(a):
         k = min(int(a.get("f", 0.5) * n), max(0, n - 1))
     res["k"] = k
 
+    t_begin = time.monotonic()
+    phases = res["phases"] = {}
     w = World(a, rng)
     try:
         w.build()
+        phases["build"] = round(time.monotonic() - t_begin, 2)
         w.prepare()
+        phases["prepare"] = round(time.monotonic() - t_begin, 2)
     except Exception:
         w.teardown()
         return dict(res, status="setup_failed", error=traceback.format_exc()[-1500:])
@@ -853,7 +868,9 @@ def run_case(a):
             c.start()
         st = wait_parked(w, callers)
         if tr is not None:
-            res["n_lines"] = tr.lines_before_first_wait()
+            # lines executed up to the moment the call was seen parked (a poll
+            # loop adds a few lines per 0.1 s: those are preemption points too)
+            res["n_lines"] = tr.n
         res["parked"] = st
         if st == "premature":
             # a timeout variant that expired on its own, or a harness problem
@@ -873,7 +890,7 @@ def run_case(a):
             hit_evt.set()
             resume_evt.wait(6.0)
 
-        tr = Tracer(k, on_hit)
+        tr = Tracer(k, on_hit, a.get("at"))
         callers = [Caller(w, 0, tr)]
         callers[0].start()
         reached = False
@@ -890,6 +907,7 @@ def run_case(a):
                 break
             time.sleep(0.005)
         res["k_reached"] = reached
+        res["k"] = tr.k
         res["k_where"] = tr.where
         res["active_at_hit"] = bool(w.V.is_active())
         injector.start()
@@ -916,6 +934,7 @@ def run_case(a):
     if timing != "after":
         wait_inactive(1.0)
     w.stall.go.set()
+    phases["lost"] = round(time.monotonic() - t_begin, 2)
     verdict, info, last = observe(w, callers, window + tmo, 4 * window + 40 + tmo, extra_threads=[injector])
     res.update(
         verdict=verdict,
@@ -935,5 +954,7 @@ def run_case(a):
         crashes=[dict(c, victim=(c["ident"] == w.V.ident)) for c in CRASHES],
         v_exception=repr(w.V.saved_exception)[:120] if getattr(w.V, "saved_exception", None) else None,
     )
+    phases["observed"] = round(time.monotonic() - t_begin, 2)
     w.teardown()
+    phases["end"] = round(time.monotonic() - t_begin, 2)
     return dict(res, status="done")
